@@ -1,6 +1,6 @@
-from . import evaluate, numeric, structure, reduce, symbolic, wrappers, frame, ordering
+from . import evaluate, numeric, structure, reduce, symbolic, wrappers, frame, ordering, history
 
-MODULES = [evaluate, numeric, structure, reduce, symbolic, wrappers, frame, ordering]
+MODULES = [evaluate, numeric, structure, reduce, symbolic, wrappers, frame, ordering, history]
 
 
 def all_specs(prog, tier):
